@@ -50,6 +50,10 @@ func (g *gen) vol(op, t string, quick int) int {
 
 // ---------------------------------------------------------------- number pools
 
+const yearOne = -62135596800 // Unix seconds of the zero time.Time
+
+var timeLocs = []string{"", "utc", "+08:00", "zero"}
+
 var two63 = new(big.Int).Lsh(big.NewInt(1), 63)
 var two64 = new(big.Int).Lsh(big.NewInt(1), 64)
 
@@ -57,6 +61,10 @@ var i64Pool = []int64{0, 1, -1, 2, 7, 9, 10, -10, 11, 99, 100, 101, 127, 128, 25
 	math.MaxInt32, math.MaxInt32 + 1, math.MinInt32, math.MinInt32 - 1, math.MaxUint32, math.MaxUint32 + 1,
 	999999999, 1000000000, 1000000001, -999999999, -1000000000, -1000000001, 60000000000, 3600000000000, 1e18, 1e18 - 1, -1e18,
 	9223372036, 9223372037, -9223372036, -9223372037, 1700000000, 1700000000123456789,
+	yearOne, yearOne + 1, yearOne - 1, yearOne + 86400, yearOne - 86400, // 0001-01-01T00:00:00Z = the zero time.Time, and neighbours
+	253402300799, 253402300800, -62167219200, // 9999-12-31T23:59:59Z and the next second; 0000-01-01T00:00:00Z
+	math.MaxInt64 + yearOne, math.MaxInt64 + yearOne + 1, math.MinInt64 - yearOne, math.MinInt64 - yearOne - 1, // ends of time.Time's internal second counter (wrap points)
+	-6795364579, 2147483648 * 1000, // an instant before 1800; 2^31 ms
 	math.MaxInt64, math.MaxInt64 - 1, math.MinInt64, math.MinInt64 + 1}
 var u64Pool = []uint64{0, 1, 9, 10, 255, 256, 1 << 32, 1<<63 - 1, 1 << 63, 1<<63 + 1, math.MaxUint64, math.MaxUint64 - 1, 1e19, 9999999999999999999, 1e18}
 
@@ -148,7 +156,7 @@ func fixedIntTokens() []tokc {
 	add("q-blank", `" 12"`, `"12 "`, `" 12 "`, `"1 2"`, `" "`, `"  "`, `"- 1"`, `" -1"`)
 	add("q-junk", `"12a"`, `"a12"`, `"1a2"`, `"1_000"`, `"1_0"`, `"_1"`, `"0x1f"`, `"0b1"`, `"0o7"`, `"1e3"`, `"1E3"`, `"1.0"`, `"1."`, `".1"`, `"1,000"`,
 		`"12/"`, `"12:"`, `"/12"`, `":12"`, `"1/2"`, `"1"`, `"12"`, `"１２"`, `"١٢"`, `"12\n"`, `"\"12\""`, `"\\12"`, `"null"`, `"true"`, `"NaN"`, `"abc"`, `"ff"`)
-	add("q-empty", `""`)
+	add("q-empty", `""`, ` ""`, `"" `, "\n\"\"\t", " \"\" ", "\r\n\"\"")
 	add("bare-int", `0`, `1`, `5`, `9`, `10`, `12`, `99`, `100`, `101`, `123`, `1234`, `12345`, `-0`, `-1`, `-5`, `-12`, `-123`, `-1234`, `1000000000`,
 		`9223372036854775807`, `9223372036854775808`, `-9223372036854775808`, `-9223372036854775809`, `18446744073709551615`, `18446744073709551616`,
 		`100000000000000000000`, `1234567890123456789012345678901234567890`)
@@ -196,6 +204,9 @@ func (g *gen) randIntToken() tokc {
 		}
 		return tokc{"bare-frac-exp", []byte(f)}
 	case 17:
+		if g.chance(40) {
+			return tokc{"q-empty", []byte(g.pick([]string{`""`, ` ""`, `"" `, ` "" `, "\t\"\"\n"}))}
+		}
 		return tokc{"literal", []byte(g.pick([]string{"null", "true", "false"}))}
 	case 18:
 		// one side quoted, stray quotes, blanks outside the token
@@ -482,7 +493,13 @@ func (g *gen) all() []input {
 	// instants: seconds over all of int64, nanosecond part 0 / 1 / 999999999 / random
 	nsecs := []int64{0, 1, 999999999, 500000000}
 	for _, s := range i64Pool {
-		g.enc("JUnixTime", "pool", val{K: 't', S: s, N: nsecs[g.intn(len(nsecs))]})
+		g.enc("JUnixTime", "pool", val{K: 't', S: s, N: nsecs[g.intn(len(nsecs))], Loc: timeLocs[g.intn(3)]})
+	}
+	for _, loc := range timeLocs { // the zero time.Time, in every location, and its neighbours
+		for _, d := range []int64{0, 1, -1, 86400, -86400} {
+			g.enc("JUnixTime", "year-one", val{K: 't', S: yearOne + d, N: 0, Loc: loc})
+			g.enc("JNanoTime", "year-one-outside-int64-ns", val{K: 't', S: yearOne + d, N: 0, Loc: loc})
+		}
 	}
 	for i, n := 0, g.vol("enc", "JUnixTime", 40); i < n; i++ {
 		g.enc("JUnixTime", "random", val{K: 't', S: g.randI64(), N: int64(g.intn(1000000000))})
@@ -577,10 +594,16 @@ func (g *gen) all() []input {
 		}
 		for _, s := range i64Pool {
 			if k == "KUnix2Time" {
-				value(k, "pool", val{K: 't', S: s, N: nsecs[g.intn(len(nsecs))]}, oldT)
+				value(k, "pool", val{K: 't', S: s, N: nsecs[g.intn(len(nsecs))], Loc: timeLocs[g.intn(3)]}, oldT)
 			} else {
 				value(k, "pool", vt(time.Unix(0, s)), oldT)
 			}
+		}
+		for _, loc := range timeLocs {
+			for _, d := range []int64{0, 1, -1, 86400, -86400} {
+				value(k, "year-one", val{K: 't', S: yearOne + d, N: 0, Loc: loc}, oldT)
+			}
+			scan(k, "other-type", oldT, sqlArg{Ty: "time", Unix: yearOne, Loc: loc})
 		}
 		for i, n := 0, g.vol("value", k, 30); i < n; i++ {
 			if k == "KUnix2Time" {
@@ -594,8 +617,15 @@ func (g *gen) all() []input {
 	}
 	for _, k := range []string{"KStamp", "KSqlTime2Unix"} {
 		for _, s := range i64Pool {
-			scan(k, "time", sentI, sqlArg{Ty: "time", Unix: s, Nsec: nsecs[g.intn(len(nsecs))]})
+			scan(k, "time", sentI, sqlArg{Ty: "time", Unix: s, Nsec: nsecs[g.intn(len(nsecs))], Loc: timeLocs[g.intn(3)]})
 			value(k, "pool", vz(s), sentI)
+		}
+		for _, loc := range timeLocs { // the zero time.Time (Value() of the stamp -62135596800) in every location, and its neighbours
+			for _, d := range []int64{0, 1, -1, 86400, -86400} {
+				scan(k, "time-year-one", sentI, sqlArg{Ty: "time", Unix: yearOne + d, Loc: loc})
+				scan(k, "time-year-one", vz(-1), sqlArg{Ty: "time", Unix: yearOne + d, Nsec: 1, Loc: loc})
+				value(k, "year-one", vz(yearOne+d), vz(int64(g.intn(3))-1))
+			}
 		}
 		for i, n := 0, g.vol("scan", k, 25); i < n; i++ {
 			scan(k, "time", vz(g.randI64()), sqlArg{Ty: "time", Unix: g.randI64(), Nsec: int64(g.intn(1000000000))})
